@@ -636,3 +636,10 @@ M('c03c-append-branch-keeps-consume-offset', 'C03', 'break', RQ,
          (RQ, '        connp->in_buf_size = len;\n    } else {', '        connp->in_buf_size = len;\n        // Reset the consumer position.\n        connp->in_current_consume_offset = connp->in_current_read_offset;\n    } else {')])
 M('c17b-status-erased-by-protocol', 'C17', 'break', TX,
   '    if (tx->response_protocol_number == HTP_PROTOCOL_INVALID) {', '    if (tx->response_protocol_number == HTP_PROTOCOL_INVALID) {\n        tx->response_status_number = HTP_STATUS_INVALID;', 'C17.b')
+
+M('c06d-filter-swallows-response-marker', 'C06', 'break', UT,
+  'htp_status_t htp_res_run_hook_body_data(htp_connp_t *connp, htp_tx_data_t *d) {\n    // Do not invoke callbacks with an empty data chunk.\n    if ((d->data != NULL) && (d->len == 0)) return HTP_OK;',
+  'htp_status_t htp_res_run_hook_body_data(htp_connp_t *connp, htp_tx_data_t *d) {\n    // Do not invoke callbacks with an empty data chunk.\n    if ((d->len == 0) && !d->is_last) return HTP_OK;', 'C06.d')
+M('c06d-filter-reordered-keep', 'C06', 'keep', UT,
+  'htp_status_t htp_res_run_hook_body_data(htp_connp_t *connp, htp_tx_data_t *d) {\n    // Do not invoke callbacks with an empty data chunk.\n    if ((d->data != NULL) && (d->len == 0)) return HTP_OK;',
+  'htp_status_t htp_res_run_hook_body_data(htp_connp_t *connp, htp_tx_data_t *d) {\n    // Do not invoke callbacks with an empty data chunk.\n    if ((d->len == 0) && (d->data != NULL)) return HTP_OK;')
